@@ -1815,4 +1815,173 @@ theorem reject_pair {A B : MergeInput} (hA : TypesNodup A.schema) (hB : TypesNod
   obtain ⟨e, he⟩ := herr
   rw [he] at hod; cases hod
 
+/-! ## acceptance is symmetric for two definitions -/
+
+/-- the two root fields may coexist: they are the same relay `node` field -/
+def rootCond (g0 rf : FieldDef) : Bool := isNodeField E g0 && isNodeField E rf && isSameSignature rf g0
+
+theorem rootCond_comm (g0 rf : FieldDef) : rootCond g0 rf = rootCond rf g0 := by
+  unfold rootCond
+  rw [isSameSignature_comm, Bool.and_comm (isNodeField E g0)]
+
+theorem rootFold_ok_iff {n : String} : ∀ (l fs0 : List FieldDef), (l.map (·.name)).Nodup →
+    ((∃ fs, l.foldlM (rootStep E n) fs0 = .ok fs) ↔
+      ∀ g0 ∈ l, isBuiltinName g0.name = false → ∀ rf, fieldNamed fs0 g0.name = some rf → rootCond g0 rf = true)
+  | [], fs0, _ => by
+    simp only [List.foldlM_nil, List.not_mem_nil, false_imp_iff, implies_true, iff_true]
+    exact ⟨fs0, rfl⟩
+  | x :: l, fs0, hn => by
+    simp only [List.map_cons, List.nodup_cons] at hn
+    constructor
+    · rintro ⟨fs, h⟩ g0 hg hb rf hrf
+      cases hc : rootCond g0 rf with
+      | true => rfl
+      | false =>
+        obtain ⟨e, he⟩ := rootFold_err (n := n) (x :: l) fs0 g0 rf hg hb hrf hc
+        rw [he] at h; cases h
+    · intro h
+      have hstep : ∃ s1, rootStep E n fs0 x = .ok s1 ∧ (s1 = fs0 ∨ (s1 = fs0 ++ [x] ∧ fieldNamed fs0 x.name = none)) := by
+        unfold rootStep
+        simp only [show E.rootKeepsNodeField = true from rfl, ↓reduceIte]
+        cases hb : isBuiltinName x.name with
+        | true => exact ⟨fs0, by simp, Or.inl rfl⟩
+        | false =>
+          simp only [Bool.false_eq_true, ↓reduceIte]
+          cases hrf : fieldNamed fs0 x.name with
+          | none => exact ⟨fs0 ++ [x], rfl, Or.inr ⟨rfl, rfl⟩⟩
+          | some rf =>
+            have := h x List.mem_cons_self hb rf hrf
+            unfold rootCond at this
+            simp only [this, ↓reduceIte]
+            exact ⟨fs0, rfl, Or.inl rfl⟩
+      obtain ⟨s1, h1, hs1⟩ := hstep
+      have ih := (rootFold_ok_iff (n := n) l s1 hn.2).mpr (by
+        intro g0 hg hb rf hrf
+        apply h g0 (List.mem_cons_of_mem _ hg) hb rf
+        rcases hs1 with rfl | ⟨rfl, _⟩
+        · exact hrf
+        · unfold fieldNamed at hrf ⊢
+          rw [List.find?_append] at hrf
+          cases hf : List.find? (fun x => x.name == g0.name) fs0 with
+          | some r => rw [hf] at hrf; simpa using hrf
+          | none =>
+            rw [hf] at hrf
+            have hxg : x.name ≠ g0.name := fun he => hn.1 (he ▸ List.mem_map_of_mem hg)
+            simp [hxg] at hrf)
+      obtain ⟨fs, hfs⟩ := ih
+      exact ⟨fs, by rw [List.foldlM_cons, h1]; exact hfs⟩
+
+/-- `mergeRootObjects(a, b)` succeeds iff no field of `b` meets a same-named field of `a`, the
+    relay `node` field aside -/
+def RootOK (a b : TypeDef) : Prop :=
+  ∀ g0 ∈ b.fields, isBuiltinName g0.name = false → ∀ rf ∈ a.fields, rf.name = g0.name → rootCond g0 rf = true
+
+theorem mergeRootObjects_ok_iff {a b : TypeDef} (ha : (a.fields.map (·.name)).Nodup) (hb : (b.fields.map (·.name)).Nodup) :
+    (∃ d, mergeRootObjects E a b = .ok d) ↔ RootOK a b := by
+  have key : (∃ d, mergeRootObjects E a b = .ok d) ↔ ∃ fs, b.fields.foldlM (rootStep E a.name) a.fields = .ok fs := by
+    unfold mergeRootObjects
+    simp only [bind, Except.bind, pure, Except.pure]
+    cases b.fields.foldlM (rootStep E a.name) a.fields with
+    | error e => simp
+    | ok fs => simp
+  rw [key, rootFold_ok_iff _ _ hb]
+  unfold RootOK
+  constructor
+  · intro h g0 hg hbn rf hrf hrn
+    exact h g0 hg hbn rf (hrn ▸ fieldNamed_of_nodup ha hrf)
+  · intro h g0 hg hbn rf hrf
+    obtain ⟨h1, h2⟩ := fieldNamed_some hrf
+    exact h g0 hg hbn rf h1 h2
+
+theorem rootOK_symm {a b : TypeDef} (h : RootOK a b) : RootOK b a := by
+  intro g0 hg hb rf hrf hn
+  rw [rootCond_comm]
+  exact h rf hrf (hn ▸ hb) g0 hg hn.symm
+
+theorem mergeCustomObjects_ok_iff {a b : TypeDef} :
+    (∃ d, mergeCustomObjects E a b = .ok d) ↔
+      (∃ fs, mergeCustomObjectFields E a b = .ok fs) ∧ (∃ fs, mergeCustomObjectFields E b a = .ok fs) := by
+  unfold mergeCustomObjects
+  simp only [bind, Except.bind, pure, Except.pure]
+  cases mergeCustomObjectFields E a b with
+  | error e => simp
+  | ok fs =>
+    cases mergeCustomObjectFields E b a with
+    | error e => simp
+    | ok fs' => simp
+
+/-- `mergeDef` succeeds iff … (the converse of `mergeDef_spec`) -/
+theorem mergeDef_ok_iff {as bs : Schema} {va vb : TypeDef} (hn : va.name = vb.name) :
+    (∃ od, mergeDef E as bs va vb = .ok od) ↔
+    (vb.name = nodeInterfaceName ∨ (vb.kind = va.kind ∧ (vb.kind = .scalar ∨ (vb.kind = .union ∧ sameMembers va.members vb.members = true) ∨
+      (vb.kind ≠ .scalar ∧ vb.kind ≠ .union ∧ implementsNode vb = implementsNode va ∧
+        (isRootName vb.name = true → ∃ d, mergeRootObjects E vb va = .ok d) ∧
+        (isRootName vb.name = false → ∃ d, mergeCustomObjects E vb va = .ok d))))) := by
+  constructor
+  · rintro ⟨od, h⟩
+    rcases mergeDef_spec h hn with ⟨_, hN⟩ | ⟨_, hk, hrest⟩
+    · exact Or.inl hN
+    · right
+      refine ⟨hk, ?_⟩
+      rcases hrest with ⟨hs, _⟩ | ⟨hu, _, hsm⟩ | ⟨hs, hu, hi, hrc⟩
+      · exact Or.inl hs
+      · exact Or.inr (Or.inl ⟨hu, hsm⟩)
+      · refine Or.inr (Or.inr ⟨hs, hu, hi, ?_, ?_⟩)
+        · intro hr
+          rcases hrc with ⟨_, d, _, hm⟩ | ⟨hr', _⟩
+          · exact ⟨d, hm⟩
+          · rw [hr] at hr'; cases hr'
+        · intro hr
+          rcases hrc with ⟨hr', _⟩ | ⟨_, d, _, hm⟩
+          · rw [hr] at hr'; cases hr'
+          · exact ⟨d, hm⟩
+  · intro h
+    unfold mergeDef
+    by_cases h1 : (vb.name == nodeInterfaceName) = true
+    · rw [if_pos h1]; exact ⟨_, rfl⟩
+    · rw [if_neg h1]
+      rcases h with hN | ⟨hk, hrest⟩
+      · exact absurd (by simpa using hN) h1
+      · have h2 : (vb.kind != va.kind) = false := by simpa using hk
+        simp only [h2, Bool.false_eq_true, ↓reduceIte]
+        rcases hrest with hs | ⟨hu, hsm⟩ | ⟨hs, hu, hi, hroot, hcust⟩
+        · simp only [hs, beq_self_eq_true, ↓reduceIte]; exact ⟨_, rfl⟩
+        · simp only [↓reduceIte, hu, beq_self_eq_true, hsm]; exact ⟨_, rfl⟩
+        · have h3 : (vb.kind == Kind.scalar) = false := by simpa using hs
+          have h4 : (vb.kind == Kind.union) = false := by simpa using hu
+          have hself : sameMembers (possibleNames as va.name) (possibleNames (if E.ifaceSelfCompare = true then as else bs) vb.name) = true := by
+            simp only [show E.ifaceSelfCompare = true from rfl, ↓reduceIte, hn]
+            exact sameMembers_self _
+          have h6 : (implementsNode vb != implementsNode va) = false := by simpa using hi
+          simp only [h3, h4, Bool.false_eq_true, ↓reduceIte, hself, Bool.not_true, Bool.and_false, h6,
+            show E.newSideFirst = true from rfl]
+          by_cases h7 : isRootName vb.name = true
+          · rw [if_pos h7]
+            obtain ⟨d, hd⟩ := hroot h7
+            rw [hd]; exact ⟨_, rfl⟩
+          · rw [if_neg h7]
+            obtain ⟨d, hd⟩ := hcust (by simpa using h7)
+            rw [hd]; exact ⟨_, rfl⟩
+
+/-- whether two same-named definitions can be merged does not depend on which is the new one -/
+theorem mergeDef_ok_symm {as bs as' bs' : Schema} {va vb : TypeDef} (hn : va.name = vb.name)
+    (ha : (va.fields.map (·.name)).Nodup) (hb : (vb.fields.map (·.name)).Nodup)
+    (h : ∃ od, mergeDef E as bs va vb = .ok od) : ∃ od, mergeDef E as' bs' vb va = .ok od := by
+  rw [mergeDef_ok_iff hn] at h
+  rw [mergeDef_ok_iff hn.symm]
+  rcases h with hN | ⟨hk, hrest⟩
+  · exact Or.inl (hn ▸ hN)
+  · right
+    refine ⟨hk.symm, ?_⟩
+    rcases hrest with hs | ⟨hu, hsm⟩ | ⟨hs, hu, hi, hroot, hcust⟩
+    · exact Or.inl (hk ▸ hs)
+    · exact Or.inr (Or.inl ⟨hk ▸ hu, by rw [sameMembers_comm]; exact hsm⟩)
+    · refine Or.inr (Or.inr ⟨hk ▸ hs, hk ▸ hu, hi.symm, ?_, ?_⟩)
+      · intro hr
+        rw [mergeRootObjects_ok_iff ha hb]
+        exact rootOK_symm ((mergeRootObjects_ok_iff hb ha).mp (hroot (hn ▸ hr)))
+      · intro hr
+        rw [mergeCustomObjects_ok_iff]
+        exact (mergeCustomObjects_ok_iff.mp (hcust (hn ▸ hr))).symm
+
 end PebblesVerif.Merge
